@@ -675,10 +675,17 @@ impl Adversary for Rewriter {
                 let ((_, pid), (ch, wl, cl, last)) = cands[self.rng.below(cands.len() as u64) as usize];
                 let len = self.rng.range(1, (room - 14).min(40) as u64) as usize;
                 let mut d = RawDatagram { seq: pid, ch, wlead: wl, clead: cl, frag: last, last, data: vec![0xEE; len], enc: 2 };
-                match self.rng.below(5) {
+                match self.rng.below(8) {
                     0 => d.ch = (ch + 1) % 64,
                     1 => d.wlead = wl.wrapping_add(1),
                     2 => d.clead = if cl == 0 { wl.max(1) } else { cl + 1 },
+                    // smaller leads than the genuine ones (where there is room below)
+                    5 if cl > 0 => d.clead = if self.rng.chance(0.5) { cl - 1 } else { 0 },
+                    6 if wl > 0 => {
+                        d.wlead = wl - 1;
+                        d.clead = cl.min(wl - 1);
+                    }
+                    5 | 6 | 7 => d.ch = (ch + 63) % 64,
                     3 => {
                         d.last = last + 1;
                         d.frag = last + 1;
